@@ -101,6 +101,24 @@ CHECKS = {
         design_ref='DESIGN.md §5 C10',
         note='canonical single-blank multi-word keywords (respellings are C11); programs x options sampled',
         technique='TLA+ normal-form predicates evaluated by TLC on recorded format() runs; TLA+-generated programs/options'),
+    'C12': dict(
+        category='model_checking',
+        text=("SqlGen.tla annotates every object reference it derives with its name / qualifier / alias spans; programs (start symbols "
+              "RefProbe and Script) are spelled with unquoted, double-quoted and backtick names, with and without AS, under blank/tab/"
+              "line-break gaps. For every reference in a context the property names, TLC (TraceAccessors.tla) requires an Identifier "
+              "node whose get_real_name/get_parent_name/get_alias/get_name/has_alias equal the written parts with quotes removed."),
+        design_ref='DESIGN.md §5 C12',
+        note='name pools are verified against the keyword dictionaries; programs are sampled by TLC -simulate',
+        technique='TLA+ grammar with structure annotations (TLC-generated programs) + TLC validation of accessor results'),
+    'C13': dict(
+        category='model_checking',
+        text=("Same annotated programs: TLC requires for every annotated WHERE clause, item list, call, CASE, comparison and typed "
+              "literal a node of the right class with the written extent and get_identifiers / get_parameters / get_cases / left,right "
+              "equal to the written parts. Failures whose element shapes (computed from the grammar's annotation) include a construct "
+              "sqlparse does not group are one recorded finding; everything else alarms."),
+        design_ref='DESIGN.md §5 C13',
+        note='whitespace-only gaps (comments inside clauses are outside C13); one class-level recorded finding',
+        technique='TLA+ grammar with structure annotations (TLC-generated programs) + TLC validation of node extents and accessors'),
     'C17': dict(
         category='model_checking',
         text=("Same lock-step composition with the procedural constructs of ScriptGen.tla (CREATE header, DECLARE, nested BEGIN, IF, "
@@ -111,6 +129,14 @@ CHECKS = {
         note=("two recorded findings (END LOOP, END CASE) are matched by clause + trigger construct + 'model predicts the observed "
               "pieces'; anything else alarms"),
         technique='TLA+ lock-step refinement check (TLC) + TLC-generated scripts replayed + TLC trace validation'),
+    'C18': dict(
+        category='model_checking',
+        text=("TLC compares get_type() with the type annotated by SqlGen.tla for every generated statement (comments/hints in the gaps) "
+              "and for a product of leading keywords x casings x inner whitespace of multi-word keywords x whitespace/comment prefixes x "
+              "continuations, incl. CTE forms and non-DML/DDL heads (UNKNOWN)."),
+        design_ref='DESIGN.md §5 C18',
+        note='one recorded finding (comment inside the CTE list) is a dedicated clause',
+        technique='TLA+ grammar annotations + TLC validation of get_type() results'),
 }
 
 PENDING = {}
